@@ -14,6 +14,11 @@ import (
 
 func init() {
 	register(&PropertyCheck{ID: "C14", Level: "proof", Run: checkC14, Canaries: []Canary{
+		{Name: "decoder-fills-the-will-the-packet-already-has", Rule: "R14.9", Where: "(*Connect).UnmarshalBinary#Connect.will", Edits: []Edit{
+			{"connect.go", "\t\tp.will = NewPublish()\n\t\tp.will.SetQoS(p.willQoS())", "\t\tp.will = p.willOrNew()\n\t\tp.will.SetQoS(p.willQoS())"},
+			{"connect.go", "func (p *Connect) willPropertyMap() map[Ident]func() wireType {", "func (p *Connect) willOrNew() *Publish {\n\tif p.will != nil {\n\t\treturn p.will\n\t}\n\treturn NewPublish()\n}\n\nfunc (p *Connect) willPropertyMap() map[Ident]func() wireType {"}}},
+		{Name: "decoder-allocates-the-will-only-if-missing", Rule: "R14.9", Where: "(*Connect).UnmarshalBinary#Connect.will", Edits: []Edit{
+			{"connect.go", "\t\tp.will = NewPublish()\n\t\tp.will.SetQoS(p.willQoS())", "\t\tif p.will == nil {\n\t\t\tp.will = NewPublish()\n\t\t}\n\t\tp.will.SetQoS(p.willQoS())"}}},
 		{Name: "undefined-keeps-slice", Rule: "R14.1", Where: "(*Undefined).UnmarshalBinary", Edits: []Edit{{"undefined.go", "\tp.data = make([]byte, len(data))\n\tcopy(p.data, data)\n", "\tp.data = data\n"}}},
 		{Name: "bindata-keeps-subslice", Rule: "R14.1", Where: "(*bindata).UnmarshalBinary", Edits: []Edit{{"wiretypes.go", "\t*v = make([]byte, length)\n\tcopy(*v, data[2:length+2])\n", "\t*v = data[2 : length+2]\n"}}},
 		{Name: "rawdata-keeps-slice", Rule: "R14.1", Where: "(*rawdata).UnmarshalBinary", Edits: []Edit{{"wiretypes.go", "\t*v = make([]byte, len(data))\n\tcopy(*v, data)\n\treturn nil", "\t*v = data\n\treturn nil"}}},
@@ -49,6 +54,7 @@ func checkC14(p *Prog, c *Check) {
 	c.Rule("R14.3", "no exported function or method returns a slice, map or pointer whose provenance is a package variable's storage, nor an uncopied load of a field that may share such storage")
 	c.Rule("R14.5", "no decoder overwrites storage its receiver already held when the call began (which the caller may share with other packets through setters and accessors): every element store, copy destination and re-sliced append base on the decode path is a fresh allocation of that call")
 	c.Rule("R14.7", "control packets are handled through pointers only: no whole packet value is loaded or stored (a struct copy would share the backing arrays of its list fields between two packets)")
+	c.Rule("R14.9", "a packet that holds another object by pointer (CONNECT's will message, SUBSCRIBE's identifier cell) gets a new one on decode: what the decode path stores into such a field is allocated during the decode, and no function uses the old pointer on a path around that allocation")
 	c.Rule("R14.8", "no function appends in place to (or writes through) a list field that some exported setter or adder fills with the caller's own slice: storage handed in by the caller is never grown in place, so two packets built from one slice cannot overwrite each other")
 	c.Rule("R14.6", "ReadPacket writes only memory allocated during the call and returns a packet allocated during the call: packets from different calls share nothing (same rule as C13 R13.3)")
 	c.Rule("R14.4", "on ReadPacket's call tree the buffer handed to UnmarshalBinary is allocated freshly in that call")
@@ -348,6 +354,7 @@ func checkC14(p *Prog, c *Check) {
 	// R14.7
 	rulePacketsByPointerOnly(p, c, "R14.7")
 	ruleNoAppendOntoCallerStorage(p, c, "R14.8")
+	rulePointerFieldsFreshOnDecode(p, c, e, scope, "R14.9")
 
 	// R14.4
 	rp, msg := p.readPacketAnchor()
@@ -519,4 +526,183 @@ func ruleNoAppendOntoCallerStorage(p *Prog, c *Check, rule string) {
 	if bad == 0 {
 		c.OK(rule, "list fields", "-", fmt.Sprintf("%d field(s) may hold a caller's slice; none of the %d in-place appends on receiver fields targets one of them", len(held), n))
 	}
+}
+
+// rulePointerFieldsFreshOnDecode (R14.9): a packet that holds another object by pointer (CONNECT's will message, the
+// subscription identifier cell) gets a new one on decode.  In every function of the decode scope, what is stored
+// into such a pointer field is allocated during the decode (an allocation, or an mq call all of whose results are
+// fresh), and in a function that stores the field every load of it is behind such a store — "keep the object the
+// packet already points to" would decode into memory another packet (or the caller, via SetWill) still uses.
+func rulePointerFieldsFreshOnDecode(p *Prog, c *Check, e *Effects, scope map[*ssa.Function]bool, rule string) {
+	isPacket := map[string]bool{"Undefined": true}
+	for _, n := range specPacketTypes {
+		isPacket[n] = true
+	}
+	ptrField := func(fa *ssa.FieldAddr) (string, bool) {
+		pt, ok := fa.X.Type().Underlying().(*types.Pointer)
+		if !ok {
+			return "", false
+		}
+		nt := namedOf(pt.Elem())
+		if nt == nil || !isPacket[nt.Obj().Name()] {
+			return "", false
+		}
+		st, ok := nt.Underlying().(*types.Struct)
+		if !ok {
+			return "", false
+		}
+		if _, isPtr := st.Field(fa.Field).Type().Underlying().(*types.Pointer); !isPtr {
+			return "", false
+		}
+		return nt.Obj().Name() + "." + st.Field(fa.Field).Name(), true
+	}
+	var fresh func(fn *ssa.Function, v ssa.Value, depth int) bool
+	fresh = func(fn *ssa.Function, v ssa.Value, depth int) bool {
+		if depth > 6 {
+			return false
+		}
+		switch x := v.(type) {
+		case *ssa.Alloc:
+			return true
+		case *ssa.Const:
+			return x.Value == nil // clearing the field
+		case *ssa.Phi:
+			for _, ed := range x.Edges {
+				if !fresh(fn, ed, depth+1) {
+					return false
+				}
+			}
+			return len(x.Edges) > 0
+		case *ssa.Call:
+			sc := x.Call.StaticCallee()
+			if sc == nil || sc.Blocks == nil {
+				return false
+			}
+			sum := e.Summary(sc)
+			if sum == nil || len(sum.Results) == 0 || len(sum.Results[0]) == 0 {
+				return false
+			}
+			for pv := range sum.Results[0] {
+				if pv.Kind != PFresh {
+					return false
+				}
+			}
+			return true
+		}
+		return false
+	}
+	n := 0
+	for _, fn := range sortedFuncs(scope) {
+		if fn.Blocks == nil {
+			continue
+		}
+		type fstore struct {
+			st    *ssa.Store
+			fresh bool
+		}
+		stores := map[string][]fstore{}
+		var loads []*ssa.UnOp
+		loadField := map[*ssa.UnOp]string{}
+		for _, b := range fn.Blocks {
+			for _, ins := range b.Instrs {
+				switch x := ins.(type) {
+				case *ssa.Store:
+					if fa, ok := x.Addr.(*ssa.FieldAddr); ok {
+						if name, ok := ptrField(fa); ok {
+							stores[name] = append(stores[name], fstore{x, fresh(fn, x.Val, 0)})
+						}
+					}
+				case *ssa.UnOp:
+					if x.Op == token.MUL {
+						if fa, ok := x.X.(*ssa.FieldAddr); ok {
+							if name, ok := ptrField(fa); ok {
+								loads = append(loads, x)
+								loadField[x] = name
+							}
+						}
+					}
+				}
+			}
+		}
+		for name, sts := range stores {
+			n++
+			cons := qname(fn) + "#" + name
+			bad := ""
+			for _, s := range sts {
+				if !s.fresh {
+					bad = "stores " + describeVal(s.st.Val) + " into " + name + " at " + posOf(p, s.st) + ": not an object allocated by this decode"
+				}
+			}
+			if bad == "" {
+				for _, ld := range loads {
+					if loadField[ld] != name {
+						continue
+					}
+					// only loads whose value is written through / handed on matter; a nil test reads nothing
+					used := false
+					if refs := ld.Referrers(); refs != nil {
+						for _, r := range *refs {
+							switch y := r.(type) {
+							case *ssa.DebugRef:
+							case *ssa.BinOp:
+								if !(y.Op == token.EQL || y.Op == token.NEQ) {
+									used = true
+								}
+							default:
+								used = true
+							}
+						}
+					}
+					if !used {
+						continue
+					}
+					// is there a live path from the entry to this load that does not pass a store of the field?  (edges
+					// that are dead under the decode path's constant parameters — `if unmarshal {…}` — do not count)
+					dead := e.deadBlocks(fn)
+					deadEdge := e.DeadEdges[fn]
+					storeBefore := map[*ssa.BasicBlock]bool{}
+					for _, s := range sts {
+						if s.st.Block() != ld.Block() || instrIndex(s.st) < instrIndex(ld) {
+							storeBefore[s.st.Block()] = true
+						}
+					}
+					dom := true
+					if !dead[ld.Block()] {
+						seen := map[*ssa.BasicBlock]bool{}
+						var walk func(b *ssa.BasicBlock) bool
+						walk = func(b *ssa.BasicBlock) bool { // reaches the load without a store
+							if seen[b] || dead[b] || storeBefore[b] {
+								return false
+							}
+							seen[b] = true
+							if b == ld.Block() {
+								return true
+							}
+							for _, sc := range b.Succs {
+								if deadEdge != nil && deadEdge[[2]*ssa.BasicBlock{b, sc}] {
+									continue
+								}
+								if walk(sc) {
+									return true
+								}
+							}
+							return false
+						}
+						if walk(fn.Blocks[0]) {
+							dom = false
+						}
+					}
+					if !dom {
+						bad = "uses the " + name + " the packet held before (" + posOf(p, ld) + ") on a path that does not pass the allocation: the object may be shared with another packet or owned by the caller"
+					}
+				}
+			}
+			if bad != "" {
+				c.Bad(rule, cons, p.Pos(fn.Pos()), bad)
+			} else {
+				c.OK(rule, cons, p.Pos(fn.Pos()), "stored only with objects allocated by the decode; every use in this function is behind the store")
+			}
+		}
+	}
+	c.Measured["pointer_fields_stored_on_decode"] = n
 }
